@@ -181,6 +181,7 @@ class Env:
                      retdata=z3.K(W, z3.BitVecVal(0, 8)), retsize=BV(0), env=self, ncalls=0, ngas=0, imm=self.imm0, writes=())
 
 
+_K = z3.BitVec("k!id", 256)
 _KECCAK = {}
 
 
@@ -231,6 +232,13 @@ def exec_op(op, a, w):
     Returns (value or None, world).  Raises Halt for terminating operations."""
     env = w.env
     if op in PURE_OPS:
+        if op == "mul":
+            # x * (c ? 1 : 0)  ==  c ? x : 0   (the `select` idiom of the legacy IR); same word, friendlier to the solver
+            for i in (0, 1):
+                f = a[i]
+                if z3.is_expr(f) and z3.is_app_of(f, z3.Z3_OP_ITE) and z3.is_bv_value(f.arg(1)) and z3.is_bv_value(f.arg(2)) \
+                        and f.arg(1).as_long() == 1 and f.arg(2).as_long() == 0:
+                    return z3.If(f.arg(0), bv(a[1 - i]), BV(0)), w
         return S.bv_op(op, *a), w
     if op == "sha3" or op == "keccak256":
         return keccak(w, a[0], a[1]), w
@@ -261,13 +269,23 @@ def exec_op(op, a, w):
         # remaining gas is configuration dependent: every read is a fresh unconstrained word (numbered per path)
         return z3.BitVec(f"gas!{w.ngas + 1}{env.tag}", 256), w.replace(ngas=w.ngas + 1)
     if op == "msize":
-        return z3.BitVec(f"msize!{w.ngas + 1}{env.tag}", 256), w.replace(ngas=w.ngas + 1)
+        # the highest touched memory address, rounded up to a word: not tracked exactly; it is a multiple of 32 below 2**32
+        # (memory expansion cost) and at least the end of every byte this path wrote at a concrete address
+        ms = z3.BitVec(f"msize!{w.ngas + 1}{env.tag}", 256)
+        lo = ((max(w.mem.cw) + 32) // 32) * 32 if w.mem.cw else 0
+        for fact in (z3.ULT(ms, BV(2**32)), ms & BV(31) == 0, z3.UGE(ms, BV(lo))):
+            env.assumptions.append(fact)
+        return ms, w.replace(ngas=w.ngas + 1, pc=z3.And(w.pc, z3.UGE(ms, BV(lo))))
     if op == "pc":
         raise Unsupported("pc")
     if op == "balance":
         return env.balance(a[0]), w
     if op == "extcodesize":
-        return env.extcodesize(a[0]), w
+        sz = env.extcodesize(a[0])
+        fact = z3.ULT(sz, BV(2**32))  # code sizes are bounded (EIP-170: 24576 bytes; any gas limit keeps them far below 2**32)
+        if not any(fact.eq(x) for x in env.assumptions):
+            env.assumptions.append(fact)
+        return sz, w
     if op == "extcodehash":
         return env.extcodehash(a[0]), w
     if op == "blockhash":
@@ -318,6 +336,14 @@ def exec_op(op, a, w):
         else:
             gas, to, ao, al, ro, rl = a
             value = BV(0)
+        if conc(to) == 4 and op in ("staticcall", "call") and conc(value) in (0, None) and (op == "staticcall" or conc(value) == 0):
+            # the identity precompile (address 4) returns its input (assumption A6); gas exhaustion is not modelled
+            src_mem = w.mem
+            n_in = bv(al)
+            cnt = z3.If(z3.ULT(n_in, bv(rl)), n_in, bv(rl))
+            rd = z3.Lambda([_K], src_mem.load8(bv(ao) + _K))
+            w2 = w.replace(retdata=rd, retsize=n_in, mem=w.mem.copy_from(bv(ro), lambda i: src_mem.load8(bv(ao) + i), cnt))
+            return BV(1), w2
         k = f"!{w.ncalls + 1}{env.tag}"  # the i-th outgoing call on this path: same adversary in every compared program
         ok = z3.If(z3.Bool("call_ok" + k), BV(1), BV(0))  # the success flag is 0 or 1 (Yellow Paper)
         rsize = z3.BitVec("call_retsize" + k, 256)
